@@ -385,6 +385,11 @@ def syn_families() -> dict[str, dict]:
     f["syn_taskless_parent"] = {"stages": [S("A", tasks=[], before=[S("A.b0")], after=[S("A.a0")]), S("B", ["A"])]}
     f["syn_before_fails"] = {"stages": [S("A", before=[S("A.b0", tasks=[["fail"]])]), S("B", ["A"])]}
     f["syn_after_fails"] = {"stages": [S("A", after=[S("A.a0", tasks=[["fail"]])]), S("B", ["A"])]}
+    # two parallel after stages, one fails terminally while the other is still at work (and the mirror image for
+    # before stages): the parent must be finished by whichever child reports last
+    f["syn_after_one_fails"] = {"stages": [S("A", after=[S("A.a0", tasks=[["fail"]]), S("A.a1", tasks=[["run", "ok"], ["ok"]])]), S("B", ["A"])]}
+    f["syn_before_one_fails"] = {"stages": [S("A", before=[S("A.b0", tasks=[["ok"], ["run", "ok"]]), S("A.b1", tasks=[["fail"]])]), S("B", ["A"])]}
+    f["syn_onfail_one_fails"] = {"stages": [S("A", tasks=[["fail"]], on_failure=[S("A.f0", tasks=[["fail"]]), S("A.f1", tasks=[["ok"], ["ok"]])]), S("B", ["A"])]}
     f["syn_failc_after"] = {"stages": [S("A", tasks=[["failc"]], after=[S("A.a0")]), S("B", ["A"])]}
     f["syn_child_failc"] = {"stages": [S("A", before=[S("A.b0", tasks=[["failc"]])], after=[S("A.a0", tasks=[["failc"]])]), S("B", ["A"])]}
     f["syn_two_parents"] = {"stages": [S("A", before=[S("A.b0")]), S("B", before=[S("B.b0")], after=[S("B.a0", tasks=[["ok"], ["ok"]])]),
@@ -637,7 +642,8 @@ from harness import monitors as M  # noqa: E402
 REQUIRED_INVARIANTS = {"running_task_in_running_stage", "mutex", "choice", "ids"}
 
 CRASH_QUICK = ["chain3", "diamond", "multitask", "fail_terminal", "continue_on_failure", "poll", "transient2",
-               "first_of", "quorum", "self_loop", "choice3", "mutex_pair", "or_split"]
+               "first_of", "quorum", "self_loop", "choice3", "mutex_pair", "or_split",
+               "syn_before_after", "syn_before_chain", "syn_two_after", "syn_on_failure", "syn_after_one_fails"]
 
 
 def spec_key(spec) -> str:
